@@ -356,6 +356,12 @@ func (state inSession) processReject(session *session, msg *Message, rej Message
 			return handleStateError(session, err)
 		}
 
+		// The rejected message uses up the expected number only if that is the number it carries: the header
+		// checks run before the sequence check, so a message from ahead of or behind the sequence can end up here.
+		if seqNum, err := msg.Header.GetInt(tagMsgSeqNum); err == nil && seqNum != session.store.NextTargetMsgSeqNum() {
+			return state
+		}
+
 		if err := session.store.IncrNextTargetMsgSeqNum(); err != nil {
 			return handleStateError(session, err)
 		}
